@@ -54,8 +54,12 @@ Step(ev) ==
          /\ obs' = [a |-> "fill", arg |-> ev.arg, exp |-> ev.obs]
          /\ LET s == FillSrc(ev.arg.kind, ev.arg.len, ev.arg.ld, ev.arg.a, ev.arg.b, ev.arg.c)
                 E == Elems(s)
-            IN /\ Len(ev.obs.vals) = Len(E) /\ ev.obs.clean = 1
-               /\ \A i \in 1..Len(E) : Near(ev.obs.vals[i], E[i], TolExp(s, E[i]))
+            IN /\ Len(ev.obs.vals) = Len(E)
+               /\ ev.obs.clean = 1          \* nothing but the requested (strided) elements was written
+               /\ IF ev.arg.len = 1        \* a single point of a linear profile is one of the bounds; of a boundary profile: not decided
+                  THEN ev.arg.kind = "bound" \/ Near(ev.obs.vals[1], ev.arg.a, TolExp(s, ev.arg.a))
+                                             \/ Near(ev.obs.vals[1], ev.arg.b, TolExp(s, ev.arg.b))
+                  ELSE \A i \in 1..Len(E) : Near(ev.obs.vals[i], E[i], TolExp(s, E[i]))
     [] ev.a \in {"value", "advance", "reset", "clone", "consume"}
          /\ ev.arg.i \notin 1..(IF Known(src) THEN Len(inst) ELSE Len(memo.k)) ->
          \* no such instance (a clone or the source was refused): the driver made no call
